@@ -569,6 +569,10 @@ func c17Worker(w *W) {
 		return
 	}
 
+	if w.Spec.Kind == "inline" {
+		c17Inline(w)
+		return
+	}
 	n := int(w.Spec.N)
 	switch w.Spec.Kind {
 	case "hostile":
@@ -816,6 +820,11 @@ func init() {
 				s := d.NewSpec("wellformed", fmt.Sprintf("wf-%d", i), i, 8)
 				s.N = d.Pick(2500, 120000)
 				specs = append(specs, s)
+			}
+			{
+				in := d.NewSpec("inline", "inline", 60, 8)
+				in.N = d.Pick(240, 3000)
+				specs = append(specs, in)
 			}
 			for i := 0; i < 3; i++ {
 				s := d.NewSpec("conc", fmt.Sprintf("conc-%d", i), 40+i, 8)
